@@ -14,6 +14,7 @@ import (
 	"testing"
 
 	"github.com/fabiolb/fabio/config"
+	"github.com/fabiolb/fabio/registry"
 	"github.com/fabiolb/fabio/route"
 	"github.com/fabiolb/fabio/zzverif/ev"
 )
@@ -23,7 +24,7 @@ import (
 // the client sent.
 func TestVerifC07Main(t *testing.T) {
 	L := ev.Begin("C07", "c07-main", "exploration",
-		"main.newHTTPProxy (configuration from config.Load; with and without a trace key configured) in front of a recording upstream: method {GET, POST, PUT} x query {none, plain, with ';' separators, with an invalid escape, 'trace=1'} x body {none, url-encoded form, multipart form, JSON} x Trace header {absent, present}; oracle: the upstream sees the same method, query string and body bytes, and the client gets the upstream's 200; plus upstream statuses {200..999, incl. 204, 304, 599, 600, 701, 999} with the request statistics of a running fabio switched on: same status and body at the client. non-trivial = requests with a body or a query")
+		"main.newHTTPProxy (configuration from config.Load; with and without a trace key configured) in front of a recording upstream: method {GET, POST, PUT} x query {none, plain, with ';' separators, with an invalid escape, 'trace=1'} x body {none, url-encoded form, multipart form, JSON} x Trace header {absent, present}; oracle: the upstream sees the same method, query string and body bytes, and the client gets the upstream's 200; plus upstream statuses {200..999, incl. 204, 304, 599, 600, 701, 999} with the request statistics of a running fabio switched on: same status and body at the client; plus a history of no-route pages (set, replaced, removed, set, removed) through main.watchNoRouteHTML: a request without a route gets the page last delivered. non-trivial = requests with a body or a query")
 	type seenReq struct {
 		method, query string
 		body          []byte
@@ -165,6 +166,40 @@ func TestVerifC07Main(t *testing.T) {
 				L.Violation("upstream-status-or-body-changed", d)
 			}
 		}
+	}
+	// the no-route page as the registry delivers it through main.watchNoRouteHTML: set, replaced, removed, set again.
+	// (An unbuffered send that is accepted a second time with the same value means the first one has been applied:
+	// the watcher only comes back to its receive after that.)
+	{
+		fb := newFakeBackend()
+		savedBE := registry.Default
+		registry.Default = fb
+		cfg, err := config.Load([]string{"fabio"}, nil)
+		if err != nil {
+			panic("VERIF-INFRA: " + err.Error())
+		}
+		cfg.Proxy.Strategy, cfg.Proxy.Matcher, cfg.GlobCacheSize = "rr", "prefix", 10
+		go watchNoRouteHTML(cfg)
+		hp := newHTTPProxy(cfg, c19Stats())
+		route.SetTable(make(route.Table))
+		var hist []string
+		for _, page := range []string{"<p>one</p>", "<p>two, a longer page</p>", "", "<p>three</p>", "", ""} {
+			fb.html <- page
+			fb.html <- page
+			hist = append(hist, fmt.Sprintf("%q", page))
+			req, _ := http.ReadRequest(bufio.NewReader(bytes.NewBufferString("GET /nothing HTTP/1.1\r\nHost: unrouted.example\r\n\r\n")))
+			req.RemoteAddr = "10.1.1.1:999"
+			rec := httptest.NewRecorder()
+			hp.ServeHTTP(rec, req)
+			L.Case()
+			L.NontrivialKey(fmt.Sprint("noroute-page", len(hist)))
+			if rec.Code != 404 || rec.Body.String() != page {
+				L.Violation("no-route-page-not-the-one-last-delivered", map[string]interface{}{"pages_delivered": hist, "status": rec.Code, "body": rec.Body.String(), "want_body": page})
+				break
+			}
+		}
+		registry.Default = savedBE
+		route.SetTable(tbl)
 	}
 	L.End(true)
 }
